@@ -67,8 +67,9 @@ def generate(tp: Tape, tier: str):
     cands = [i for i in range(n_in, len(sh.values)) if sh.values[i].ndim >= 1 and sh.values[i].size > 0
              and sh.values[i].dtype.kind in "iuf"] or [len(sh.values) - 1]
     ship = sorted({tp.choice(cands) for _ in range(tp.randint(1, 2))})
-    raw = tp.coin(1, 8)
-    case = dict(kind="xproc", prog=prog, ship=ship, raw=raw,
+    raw = tp.coin(1, 6)
+    case = dict(kind="xproc", prog=prog, ship=ship, raw=raw, local_first=tp.coin(1, 2),
+                exact_twin=bool(raw and tp.coin(1, 2)),
                 child_pre=tp.choice([0, 0, 1, 3]),
                 parent_pre=tp.randint(0, 12) if raw else tp.choice([300, 500, 800]),
                 local_seed=tp.randint(0, 10**6),
@@ -109,8 +110,17 @@ def execute(case, sched=None):
         shipped = run_child(case, scratch)
         with activated(sim), H.quiet(), H.single_job_labels(sim):
             H.reset_globals(case.get("py_seed", 0))
-            H.set_counters(case["parent_pre"])
+            H.set_counters(0 if case.get("exact_twin") else case["parent_pre"])
             spec = cubed.Spec(work_dir=os.path.join(scratch, "work"), allowed_mem=case["allowed_mem"], reserved_mem=0)
+            twin = None
+            if case.get("exact_twin"):
+                # the receiver has built exactly what the sender built: every generated name coincides
+                for _ in range(case.get("child_pre", 0)):
+                    xp.asarray([0.0], spec=spec)
+                try:
+                    twin = G.build(prog, spec, None)
+                except Exception:  # noqa: BLE001
+                    twin = None
             st = H.ExecState()
 
             def comp(arrs):
@@ -128,21 +138,21 @@ def execute(case, sched=None):
             # local arrays first: their names depend on the parent's counters
             locals_ = {}
             for vid in case["ship"]:
-                if shipped["arrays"].get(vid) is None or shadow.values[vid].size == 0:
+                if shipped["arrays"].get(vid) is None or shadow.values[vid].size == 0 or shadow.values[vid].dtype.kind not in "iuf":
                     continue
                 want = shadow.values[vid]
                 lnp = rng.randint(-3, 6, size=want.shape).astype(want.dtype)
                 lcu = xp.asarray(lnp, chunks=tuple(max(1, s // 2) for s in want.shape) or (), spec=spec)
                 lder = lcu * 2 if want.dtype.kind != "b" else lcu
                 locals_[vid] = (lnp, lcu, lder)
-            twin = None
-            try:
-                twin = G.build(prog, spec, None)
-            except Exception:  # noqa: BLE001
-                twin = None
+            if twin is None:
+                try:
+                    twin = G.build(prog, spec, None)
+                except Exception:  # noqa: BLE001
+                    twin = None
             for vid in case["ship"]:
                 blob = shipped["arrays"].get(vid)
-                if blob is None or shadow.random[vid] or shadow.values[vid].size == 0:
+                if blob is None or shadow.random[vid] or shadow.values[vid].size == 0 or shadow.values[vid].dtype.kind not in "iuf":
                     continue
                 remote = cloudpickle.loads(blob)
                 want = shadow.values[vid]
@@ -150,7 +160,23 @@ def execute(case, sched=None):
                 local_names = set(lder._plan.dag.nodes) | (set(twin.values[vid]._plan.dag.nodes) if twin and twin.values[vid] is not None else set())
                 collide = bool(set(remote._plan.dag.nodes) & local_names)
                 try:
-                    (r,) = comp([remote])
+                    if case.get("local_first"):
+                        # the receiving process has already planned / computed its own (possibly same-named) arrays
+                        (r0,) = comp([lder])
+                        judge("local: local array computed before the shipped one", r0, lnp * 2, vid, False)
+                        if twin is not None and twin.values[vid] is not None:
+                            (r0,) = comp([twin.values[vid]])
+                            judge("local: locally rebuilt twin computed before the shipped one", r0, want, vid, False)
+                        counters["local_first_runs"] = 1
+                    try:
+                        (r,) = comp([remote])
+                    except (H.SimHang, H.SimStepLimit):
+                        raise
+                    except Exception as e:  # noqa: BLE001 - computing the shipped array on its own must work
+                        violations.append(dict(cls=f"alone_failed:{type(e).__name__}",
+                                               msg=f"shipped array (value {vid}) computed alone: {type(e).__name__}: {str(e)[:200]} at {PR.exc_where(e)}",
+                                               name_collision=False, exc_type=type(e).__name__))
+                        continue
                     counters["alone"] += 1
                     judge("alone: shipped array computed alone", r, want, vid, False)
                     combos = [("combined: remote + local", lambda: remote + lder, want + lnp * 2),
